@@ -77,6 +77,13 @@ def gen_case(rng, cid, kind, big=False):
         c['param'] = rng.choice([0, 1, 2, 3])  # SpillBatchSize
     if kind not in ('frame', 'decoding', 'taskbuffer') and rng.random() < 0.2:
         c['errat'] = rng.randrange(1, 7)
+    c['slack'] = rng.choice([0, 0, 1, 3, 8]) if kind not in ('scanner', 'scanv', 'scanner_arity', 'scanner_type') else 0
+    if kind in ('scanner_arity', 'scanner_type'):
+        # well-formed Scan calls before the ill-formed one (fewer than there are rows)
+        c['param'] = rng.randrange(0, min(3, len(srcs[0])) + 1) if srcs and srcs[0] else 0
+        if c['param'] > 0:
+            c['errat'] = 0
+            c['chunks'] = [ch for ch in c['chunks'] if ch > 0] or [1]
     return c
 
 
